@@ -138,7 +138,21 @@ ABS_ALPHABET = [
     ("pet-typename", "{ pet { __typename ... on Node { id } } }", {}),
     ("node-spread-in-cat-bytes", b"{ cat { ... on Node { id } } }", {}),
 ]
-FAMILIES = {"auth": (AUTH_SDL, AUTH_ALPHABET), "ni": (NI_SDL, NI_ALPHABET), "abs": (ABS_SDL, ABS_ALPHABET)}
+# deprecated enum values: introspecting with or without them must not change what later requests are answered
+DEP_SDL = """
+enum Color { RED GREEN @deprecated(reason: "use LIME") LIME }
+type Query { fav(c: Color = GREEN): Color hello: String old: Int @deprecated }
+"""
+DEP_ALPHABET = [
+    ("values-default", '{ __type(name: "Color") { enumValues { name } } }', {}),
+    ("values-all", '{ __type(name: "Color") { enumValues(includeDeprecated: true) { name isDeprecated deprecationReason } } }', {}),
+    ("deprecated-literal", "{ fav(c: GREEN) }", {}),
+    ("deprecated-literal-bytes", b"{ fav(c: GREEN) }", {}),
+    ("fields-default-then-all", '{ a: __type(name: "Query") { fields { name } } b: __type(name: "Query") { fields(includeDeprecated: true) { name } } }', {}),
+    ("default-argument", "{ fav old }", {}),
+    ("invalid-literal", "{ fav(c: PURPLE) }", {}),
+]
+FAMILIES = {"auth": (AUTH_SDL, AUTH_ALPHABET), "ni": (NI_SDL, NI_ALPHABET), "abs": (ABS_SDL, ABS_ALPHABET), "dep": (DEP_SDL, DEP_ALPHABET)}
 
 
 class AuthDirective:
@@ -165,6 +179,15 @@ def make_auth_engine(config, family="auth"):
     @Resolver("Query.hello", schema_name=name)
     async def hello(parent, args, ctx, info):
         return "world"
+
+    if family == "dep":
+        @Resolver("Query.fav", schema_name=name)
+        async def fav(parent, args, ctx, info):
+            return args.get("c")
+
+        @Resolver("Query.old", schema_name=name)
+        async def old(parent, args, ctx, info):
+            return 1
 
     if family == "abs":
         @Resolver("Query.cat", schema_name=name)
@@ -204,6 +227,8 @@ def run_auth(tier, first, family="auth"):
         drop(name)
     if family == "ni" and ("disabled" not in ref["type-introspection"] or "world" not in ref["valid"]):
         out["machinery"].append("the non-introspectable engine does not behave as intended: %r" % (ref,))
+    if family == "dep" and ("GREEN" in ref["values-default"] or "GREEN" not in ref["values-all"] or '"fav": "GREEN"' not in ref["deprecated-literal"]):
+        out["machinery"].append("the deprecated-values engine does not behave as intended: %r" % (ref,))
     if family == "abs" and ("d1" not in ref["all-nodes"] or '"data": null' not in ref["impossible-spread"] or '"tricks": 2' not in ref["dog-fragment"]):
         out["machinery"].append("the abstract-types engine does not behave as intended: %r" % (ref,))
     if family == "auth" and ("world" not in ref["valid-token"] or "Unauthorized" not in ref["valid-no-token"]):
@@ -221,7 +246,7 @@ def run_auth(tier, first, family="auth"):
                 if got != ref[letter[0]]:
                     labels = [alphabet[i][0] for i in hist[:pos + 1]]
                     out["violations"].append({
-                        "signature": "response-changed-by-history|%s|%s" % ({"auth": "schema-hook-refusals", "ni": "non-introspectable-schema", "abs": "abstract-types"}[family], letter[0]),
+                        "signature": "response-changed-by-history|%s|%s" % ({"auth": "schema-hook-refusals", "ni": "non-introspectable-schema", "abs": "abstract-types", "dep": "deprecated-values"}[family], letter[0]),
                         "summary": "cache=%s history=%r (schema-level hook): response #%d is %s but a fresh engine answers %s" % (
                             config, labels, pos, got[:500], ref[letter[0]][:500]),
                         "replay": {"auth_history": list(hist[:pos + 1]), "config": config}})
@@ -427,13 +452,13 @@ def reference():
 
 def shards(tier, seed):
     n = len(ALPHABET)
-    return [(a, b, tier) for a in range(n) for b in range(n)] + [("shared", tier)] + [("variables", tier, k) for k in range(len(VARS_ALPHABET))] + [("auth", tier, k) for k in range(len(AUTH_ALPHABET))] + [("ni", tier, k) for k in range(len(NI_ALPHABET))] + [("abs", tier, k) for k in range(len(ABS_ALPHABET))] + [("mutating", tier, k) for k in range(len(MUT_ALPHABET))]
+    return [(a, b, tier) for a in range(n) for b in range(n)] + [("shared", tier)] + [("variables", tier, k) for k in range(len(VARS_ALPHABET))] + [("auth", tier, k) for k in range(len(AUTH_ALPHABET))] + [("ni", tier, k) for k in range(len(NI_ALPHABET))] + [("abs", tier, k) for k in range(len(ABS_ALPHABET))] + [("dep", tier, k) for k in range(len(DEP_ALPHABET))] + [("mutating", tier, k) for k in range(len(MUT_ALPHABET))]
 
 
 def run_shard(item):
     if item[0] == "shared":
         return run_shared(item[1])
-    if item[0] in ("auth", "ni", "abs"):
+    if item[0] in ("auth", "ni", "abs", "dep"):
         return run_auth(item[1], item[2], item[0])
     if item[0] == "variables":
         return run_shared_variables(item[1], item[2])
